@@ -801,4 +801,53 @@ pub fn stream_hugepiece(out: &mut impl Write, seed: u64) {
             });
         }
     }
+    // A generator whose tail is not yet full and whose counter is far from the limit: the whole
+    // first 4 GiB really are processed (about ten seconds each in a release build; skipped in dev
+    // builds).  One piece versus two pieces, concurrently.
+    if !cfg!(debug_assertions) {
+        let big = &big;
+        let cases: [(usize, &[u8], usize); 2] = [(1, &[], 1usize << 32), (0, &[0x41], (1usize << 32) + 256)];
+        let lines: Vec<String> = std::thread::scope(|sc| {
+            let hs: Vec<_> = cases.iter().map(|&(vi, pre, n)| sc.spawn(move || {
+                with_variant!(vi, T => {
+                    let r = guarded(|| {
+                        std::thread::scope(|s2| {
+                            let one = s2.spawn(move || {
+                                let mut g = Generator::<T>::new();
+                                let mut obs = Vec::new();
+                                if !pre.is_empty() { g.update(pre); obs.push(core_obs(&g)); }
+                                g.update(&big[..n]);
+                                obs.push(core_obs(&g));
+                                let tl = matches!(g.finalize_with_options(&options_from_bits(28)), Err(tlsh::GeneratorError::TooLargeInput));
+                                (obs, tl, full_state(&g))
+                            });
+                            let two = s2.spawn(move || {
+                                let mut g1 = Generator::<T>::new();
+                                if !pre.is_empty() { g1.update(pre); }
+                                g1.update(&big[..n / 2]);
+                                g1.update(&big[n / 2..n]);
+                                full_state(&g1)
+                            });
+                            let (obs, tl, st) = one.join().map_err(|_| ())?;
+                            let st1 = two.join().map_err(|_| ())?;
+                            Ok::<_, ()>((obs, tl, st == st1))
+                        })
+                    });
+                    let head = format!("core {} 0 - {}Z{}", vi, if pre.is_empty() { String::new() } else { format!("{},", hex(pre)) }, n);
+                    match r {
+                        Ok(Ok((obs, tl, same))) => {
+                            let mut l = format!("{} => {} toolarge={}", head, join(&obs, ","), tl as u8);
+                            if !same {
+                                l.push_str(&format!("\nORACLE C03 one-huge-piece-differs-from-two-pieces {}\nORACLE C11 one-huge-piece-differs-from-two-pieces {}", head, head));
+                            }
+                            l
+                        }
+                        _ => format!("{} => panic\nORACLE C11 generator-panicked {}", head, head),
+                    }
+                })
+            })).collect();
+            hs.into_iter().map(|h| h.join().unwrap()).collect()
+        });
+        for l in lines { writeln!(out, "{}", l).unwrap(); }
+    }
 }
